@@ -24,7 +24,7 @@ def list_jobs(tier):
     reg = corpus.registry_ids(include_f64=False)
     a1 = families.ids("A1", tier)
     ids = families.ids("A4", tier) + families.ids("A5", tier) + families.ids("A6", tier)[::3] + families.ids("A8", tier)[::4]
-    ids += [i for i in a1 if "/bc." in i or "/sc." in i or "/mix." in i] + [i for i in a1 if "/bc." not in i and "/sc." not in i and "/mix." not in i][::4]
+    ids += [i for i in a1 if any(k in i for k in ("/bc.", "/sc.", "/mix.", "/dot."))] + [i for i in a1 if not any(k in i for k in ("/bc.", "/sc.", "/mix.", "/dot."))][::4]
     ids += reg[::5] if tier == "quick" else reg
     return ids
 
